@@ -260,6 +260,80 @@ func c13Reps() ([]string, []string) {
 	return repsAll, repsOK
 }
 
+// c13Wrappers: one level of nesting; %s is the buried document. Two alternate per level.
+var c13Wrappers = [][2]string{
+	{`{"left":%s,"operator":"NOT"}`, `{"left":%s,"operator":"NOT"}`},
+	{`{"left":"a","operator":"AND","right":%s}`, `{"left":"a","operator":"AND","right":%s}`},
+	{`{"left":%s,"operator":"OR","right":"b"}`, `{"left":%s,"operator":"OR","right":"b"}`},
+	{`{"left":%s,"operator":"MUST"}`, `{"left":{"left":"a","operator":"EQUALS","right":"b"},"operator":"AND","right":%s}`},
+}
+
+// depths just beyond the exhaustive depth 2, around powers of two, and one far beyond any
+// plausible recursion guard
+var c13Depths = []int{2, 3, 4, 7, 16, 33, 64, 129, 257, 1025}
+
+func nestDoc(core string, wr [2]string, n int) string {
+	// built inside-out without Sprintf re-scanning the growing document
+	var pre, post []string
+	for i := 0; i < n; i++ {
+		t := wr[i%2]
+		k := strings.Index(t, "%s")
+		pre = append(pre, t[:k])
+		post = append(post, t[k+2:])
+	}
+	var sb strings.Builder
+	for i := 0; i < n; i++ {
+		sb.WriteString(pre[i])
+	}
+	sb.WriteString(core)
+	for i := n - 1; i >= 0; i-- {
+		sb.WriteString(post[i])
+	}
+	return sb.String()
+}
+
+var (
+	dangerousOnce  sync.Once
+	dangerousCores []string
+)
+
+// c13DangerousCores: depth-1 documents that decode, fail Validate, and make one of the five
+// operations panic when it is called regardless — one per (operator, operation, panic class).
+// Recomputed from the implementation on every run.
+func c13DangerousCores() []string {
+	dangerousOnce.Do(func() {
+		seen := map[string]bool{}
+		d := driver.NewPostgresDriver()
+		depth1Docs(func(doc string) {
+			var e expr.Expression
+			var err error
+			if pi := core.Safe(func() { err = json.Unmarshal([]byte(doc), &e) }); pi != nil || err != nil {
+				return
+			}
+			invalid := false
+			core.Safe(func() { invalid = expr.Validate(&e) != nil })
+			if !invalid {
+				return
+			}
+			ops := map[string]func(){
+				"String": func() { _ = e.String() }, "GoString": func() { _ = e.GoString() }, "Marshal": func() { _, _ = json.Marshal(&e) },
+				"Render": func() { _, _ = d.Render(&e) }, "RenderParam": func() { _, _, _ = d.RenderParam(&e) },
+			}
+			for _, name := range []string{"String", "GoString", "Marshal", "Render", "RenderParam"} {
+				if pi := core.Safe(ops[name]); pi != nil {
+					k := fmt.Sprint(e.Op) + "|" + name + "|" + core.AbstractMsg(pi.Msg) + "@" + pi.Where
+					if !seen[k] {
+						seen[k] = true
+						dangerousCores = append(dangerousCores, doc)
+					}
+					return
+				}
+			}
+		})
+	})
+	return dangerousCores
+}
+
 func init() {
 	core.Register(&core.Check{
 		ID:    "C13",
@@ -287,12 +361,27 @@ func init() {
 					us = append(us, core.Unit{Name: fmt.Sprintf("doc2|%s|%d|%d", tier, i, lo), Weight: 3})
 				}
 			}
+			for i := range c13Wrappers {
+				us = append(us, core.Unit{Name: fmt.Sprintf("deep|%d", i), Weight: 0})
+			}
 			return us
 		},
 		Run: func(w *core.Worker, tier, unit string) {
 			do := func(doc string) { w.Do(core.Case{Kind: "doc", In: core.BStr(doc)}) }
 			p := strings.Split(unit, "|")
 			switch p[0] {
+			case "deep":
+				// every document that fails Validate and would make a printer or renderer panic if it
+				// were rendered anyway, buried under n levels of one wrapper: Validate must still see it
+				var i int
+				fmt.Sscanf(p[1], "%d", &i)
+				cores := c13DangerousCores()
+				w.Count("deep_dangerous_cores", int64(len(cores)))
+				for _, c := range cores {
+					for _, n := range c13Depths {
+						do(nestDoc(c, c13Wrappers[i], n))
+					}
+				}
 			case "jbytes":
 				enum.EnumSeqUnit(unit, len(jsonByteAlphabet), func(seq []int) { do(enum.Join(jsonByteAlphabet, seq, "")) })
 			case "doc1":
@@ -349,7 +438,7 @@ func init() {
 		Eval:   c13Eval,
 		Shrink: c13Shrink,
 		Rule: "BYTES over a JSON alphabet (punctuation, letters, digits and the schema's key words as single symbols) to length L; JSON(1): every document {left,operator,right,+extras} over 22 leaf values x 22 operator names x (values ∪ 243 boundary objects); " +
-			"JSON(2): one child is every representative of a decoded shape signature (operator, dynamic types, string classes, render outcome; recomputed from the implementation on every run), the other every plain value and every coarse-signature representative; non-trivial = decodes and validates; distinct = distinct shape signatures of validated documents",
+			"DEEP: every depth-1 document that fails Validate and would make an operation panic, buried under 2..1025 levels of four wrappers; JSON(2): one child is every representative of a decoded shape signature (operator, dynamic types, string classes, render outcome; recomputed from the implementation on every run), the other every plain value and every coarse-signature representative; non-trivial = decodes and validates; distinct = distinct shape signatures of validated documents",
 		Assumptions: []string{"depth-2 children are abstracted to shape signatures (operator, dynamic types, string classes the code branches on); depth 1 is exhaustive without abstraction"},
 		Bounds: func(tier string) map[string]any {
 			all, ok := c13Reps()
